@@ -728,10 +728,10 @@ class Model:
         y_vals = np.array([x[1] for x in points])
 
         if x <= x_vals[0]:
-            return y_vals[0]
+            return float(y_vals[0])
 
         if x >= x_vals[len(x_vals) - 1]:
-            return y_vals[len(x_vals) - 1]
+            return float(y_vals[len(x_vals) - 1])
 
         f = interp1d(x_vals, y_vals)
         return float(f(x))
